@@ -17,7 +17,9 @@ LEVEL_TEXT = ("Seeded exploration of (terminal profile x reply schedule x operat
               "in each world the real query code runs against a simulated tty whose peer answers "
               "per its profile with seeded delays, and every returned value, the leftover input "
               "queue, the elapsed virtual time and the terminal attributes are checked after "
-              "every operation. Sampling, not proof: evidence for the sampled worlds.")
+              "every operation. A sixth of the worlds add a stalled process (the clock jumps at one "
+              "of the library's clock reads): there only 'does not raise, terminal modes restored' "
+              "is demanded. Sampling, not proof: evidence for the sampled worlds.")
 LEVEL_NOTE = ("Trusted: the VTerm responder's reply formats, the SimTTY line discipline model "
               "(ICANON/ECHO/VMIN/VTIME, TCSAFLUSH), FactsModel (documented memoisation rules). "
               "Premise of the property is enforced by the generator (atomic FIFO replies, delay "
